@@ -25,7 +25,8 @@ BUDGET = {'quick': {'runs': 6000, 'wall': 300, 'chunk': 20},
           'thorough': {'runs': 600000, 'wall': 1200, 'chunk': 100}}
 ASSUMPTIONS = [
     'pre-emption points are lock operations and raw file I/O (the '
-    'granularity the property states), not arbitrary bytecodes',
+    'granularity the property states); one run in eight adds every source '
+    'line of the MVCC adapter or of the file storage\'s read-handle pool',
     'a reader may see ConflictError subclasses (retryable); any other '
     'exception is a violation',
 ]
@@ -40,7 +41,7 @@ def gen(seed, tier):
     scripts = [mvcc.gen_script(r, ncell, r.randint(2, 7),
                                write_p=r.choice((0.2, 0.5)))
                for _ in range(nclient)]
-    return {
+    case = {
         'kind': kind, 'ncell': ncell, 'scripts': scripts,
         'explicit': [r.random() < 0.3 for _ in range(nclient)],
         'cache_size': r.choice((0, 1, 4, 400)),
@@ -51,6 +52,19 @@ def gen(seed, tier):
         'sched': mvcc.sched_config(r),
         'tick': r.choice((0.37, 0.37, 1e-7, 45.0)), 'tier': tier,
     }
+    if r.random() < 0.12:
+        # line-level pre-emption concentrated on the code that hands out
+        # snapshots and invalidations (the MVCC adapter), or on the pool of
+        # read handles of the file storage
+        from .. import seams
+        where = r.choice(('mvccadapter.py', 'mvccadapter.py',
+                          'FileStorage/FileStorage.py'))
+        case['sched']['fine'] = {
+            'p': r.choice((0.1, 0.3, 0.5)),
+            'prefix': seams.repo_src() + '/ZODB/' + where}
+        if where.startswith('FileStorage'):
+            case['sched']['fine']['qual'] = 'FilePool.'
+    return case
 
 
 def run(case):
